@@ -930,6 +930,11 @@ func (fr *Frame) rangeOverFunc(st *State, it Term, mc *ssa.MakeClosure, yf *ssa.
 	brk.assume(Not(rs[0]))
 	brk.reach = vc.Define("reach", brk.reach)
 	*st = *vc.mergeStates([]*State{done, brk})
+	if vc.ctx.firstIter {
+		// the under-approximating mode has no unrolled form of a range-over-func loop: what follows
+		// such a loop is not a real path, a refutation there does not count
+		st.taint = True
+	}
 	vc.assume("range-over-func: the iterator yields the abstract sequence its contract describes (the producer side is assumed, not verified)")
 	return nil
 }
